@@ -142,9 +142,69 @@ def gen_spec(rng, st, has_missing_ts):
     return {"cls": cls, "na": na, "post": rng.pick(H.POSTS), "kw": kw}
 
 
+BOUNDARIES = ["one row", "timestamp: single year", "timestamp: single non-missing cell", "categorical: one category",
+              "multicategorical: no category", "numerical: constant column", "numerical: min == first quartile",
+              "embedding: width 1", "one non-missing cell per column"]
+
+
+def apply_boundaries(rng, desc, which):
+    """push a generated frame onto the boundaries of the quantified dimensions (every column keeps at least one
+    usable value, the property's premise)"""
+    n = desc["n"]
+    for col in desc["cols"]:
+        if col["name"] == desc["target"]:
+            continue
+        st, cells = col["stype"], col["cells"]
+        if st == "timestamp":
+            dates = [c for c in cells if isinstance(c, list)]
+            if "timestamp: single year" in which and dates:
+                y = dates[0][0]
+                col["cells"] = [[y] + c[1:3] + c[3:] if isinstance(c, list) else c for c in cells]
+                col["cells"] = [[y, c[1], min(c[2], 28)] + c[3:] if isinstance(c, list) else c for c in col["cells"]]
+            if "timestamp: single non-missing cell" in which and dates:
+                k = next(i for i, c in enumerate(cells) if isinstance(c, list))
+                col["cells"] = [c if i == k else None for i, c in enumerate(col["cells"])]
+        elif st == "categorical" and "categorical: one category" in which:
+            vals = [c for c in cells if c is not None]
+            if vals:
+                col["cells"] = [vals[0] if c is not None else None for c in cells]
+        elif st == "multicategorical" and "multicategorical: no category" in which:
+            blank = "" if col["sep"] else []
+            col["cells"] = [blank if (c is not None or i == 0) else None for i, c in enumerate(cells)]
+        elif st == "numerical":
+            vals = [c for c in cells if isinstance(c, float)]
+            if "numerical: constant column" in which and vals:
+                col["cells"] = [vals[0] if isinstance(c, float) else c for c in cells]
+            elif "numerical: min == first quartile" in which and len(vals) >= 2:
+                lo = min(vals)
+                seen = 0
+                out = []
+                for c in cells:
+                    if isinstance(c, float):
+                        seen += 1
+                        out.append(lo if seen % 2 else c)
+                    else:
+                        out.append(c)
+                col["cells"] = out
+        elif st == "embedding" and "embedding: width 1" in which:
+            col["width"] = 1
+            col["cells"] = [[c[0]] for c in cells]
+        if "one non-missing cell per column" in which and st in ("numerical", "categorical", "multicategorical"):
+            keep = next((i for i, c in enumerate(col["cells"]) if c is not None and not isinstance(c, str) or
+                         (isinstance(c, str) and st != "numerical")), None)
+            if keep is not None:
+                col["cells"] = [c if i == keep else None for i, c in enumerate(col["cells"])]
+    return desc
+
+
 def gen_frame_case(rng, tier):
     stypes = FRAME_STYPES + ["numerical", "numerical", "categorical", "multicategorical", "timestamp"]
-    desc = ensure_usable(rng, G.gen_frame(rng, stypes=stypes, index_kinds=["range", "range", "offset", "perm"]))
+    which = []
+    if rng.chance(0.4):
+        which = rng.sample(BOUNDARIES, rng.randint(1, 3))
+    desc = G.gen_frame(rng, stypes=stypes, index_kinds=["range", "range", "offset", "perm"],
+                       n=1 if "one row" in which else None)
+    desc = ensure_usable(rng, apply_boundaries(rng, desc, which))
     feats = [c for c in desc["cols"] if c["name"] != desc["target"]]
     parents = []
     for c in feats:
@@ -175,7 +235,7 @@ def gen_frame_case(rng, tier):
            "move": rng.pick([None, None, "to", "cpu"]),
            "extra_enc": rng.pick(absent) if absent and rng.chance(0.3) else None}
     f64 = not any(s["cls"] == "LinearBucketEncoder" for s in enc.values()) and not rng.chance(0.2)
-    return {"kind": "frame", "how": how, "desc": desc, "enc": enc, "order": order, "channels": rng.randint(1, 4),
+    return {"kind": "frame", "how": how, "boundary": which, "desc": desc, "enc": enc, "order": order, "channels": rng.randint(1, 4),
             "f64": f64, "batches": batches, "seed": rng.randint(0, 10 ** 6)}
 
 
@@ -1054,7 +1114,8 @@ def nontrivial_sig(case, obs):
 def stats(cases, obss):
     d = {"kinds": {}, "classes": {}, "na": {}, "batches": {}, "batch_errors": 0, "materialize_failed": 0,
          "columns_perturbed": 0, "columns_moved": 0, "lazy_targets": {}, "lazy_ops": 0, "reject_raised": 0,
-         "f64": 0, "total": 0, "how": {}, "kw_defaults": 0, "lazy_uses": {}}
+         "f64": 0, "total": 0, "how": {}, "kw_defaults": 0, "lazy_uses": {}, "boundaries": {}, "posts": {},
+         "inplace_post_by_class": {}, "channels": {}}
     for c, o in zip(cases, obss):
         if c is None:
             continue
@@ -1068,6 +1129,13 @@ def stats(cases, obss):
             d["kw_defaults"] += any((v["cls"] == "LinearPeriodicEncoder" and "n_bins" not in v["kw"]) or
                                     (v["cls"] == "TimestampEncoder" and "out_size" not in v["kw"])
                                     for v in c["enc"].values())
+            for b in BOUNDARIES:
+                d["boundaries"][b] = d["boundaries"].get(b, 0) + (b in (c.get("boundary") or []))
+            d["channels"][c["channels"]] = d["channels"].get(c["channels"], 0) + 1
+            for k, v in c["enc"].items():
+                d["posts"][str(v["post"])] = d["posts"].get(str(v["post"]), 0) + 1
+                if v["post"] in H.INPLACE_POSTS:
+                    d["inplace_post_by_class"][v["cls"]] = d["inplace_post_by_class"].get(v["cls"], 0) + 1
             for k, v in c["enc"].items():
                 d["classes"][v["cls"]] = d["classes"].get(v["cls"], 0) + 1
                 d["na"][str(v["na"])] = d["na"].get(str(v["na"]), 0) + 1
@@ -1112,6 +1180,17 @@ def sanity(cases, obss):
                 probs.append(f"calling convention {hv} never drawn")
         if d["kw_defaults"] == 0:
             probs.append("default n_bins / out_size never drawn")
+        for b, cnt in d["boundaries"].items():
+            if cnt == 0:
+                probs.append(f"boundary never drawn: {b}")
+        if d["channels"].get(1, 0) == 0:
+            probs.append("out_channels = 1 never drawn")
+        for p_ in H.POSTS:
+            if d["posts"].get(str(p_), 0) == 0:
+                probs.append(f"post-module form {p_} never drawn")
+        for cls in sorted(CLS_OF):
+            if d["inplace_post_by_class"].get(cls, 0) == 0:
+                probs.append(f"no in-place post-module drawn for {cls}")
         if d["materialize_failed"] > 0.2 * nf:
             probs.append(f"{d['materialize_failed']} of {nf} frames fail to materialize")
         nb = sum(d["batches"].values())
